@@ -71,8 +71,9 @@ pub struct MChan {
     pub receiver: End,
     /// credit granted by the receiver and not yet used by forwarded items
     pub granted: u64,
-    /// credit announced to the sender and not yet used
-    pub announced: u64,
+    /// credit announced to the sender and not yet used (may be negative inside a concurrent
+    /// batch, where announcements are only booked at the end)
+    pub announced: i64,
     pub items_forwarded: u64,
 }
 
@@ -104,6 +105,8 @@ pub enum Exp {
     Must(Message),
     /// allowed but not required (behaviour left open by the property)
     May(Message),
+    /// exactly one of the two (the property does not rank the two answers)
+    Either(Message, Message),
     /// AddChannelCapacity to the sender with any positive amount up to `max` (announcement
     /// policy is the broker's; only the bound is stated)
     Announce { cookie: Uuid, max: u64 },
@@ -139,6 +142,38 @@ impl Effects {
 /// What the real broker emitted in this step (per connection, in order); used to pick up
 /// broker-chosen ids.
 pub type Observed = BTreeMap<C, Vec<Message>>;
+
+/// View of the observed output in which every message can be used at most once to supply a
+/// broker-chosen id (several requests of one batch may carry the same serial).
+pub struct ObsView<'a> {
+    pub obs: &'a Observed,
+    used: std::cell::RefCell<BTreeSet<(C, usize)>>,
+}
+
+impl<'a> ObsView<'a> {
+    pub fn new(obs: &'a Observed) -> Self {
+        ObsView { obs, used: Default::default() }
+    }
+
+    /// First not yet used message on connection `c` for which `f` yields a value.
+    pub fn take<T>(&self, c: C, mut f: impl FnMut(&Message) -> Option<T>) -> Option<T> {
+        let list = self.obs.get(&c)?;
+        for (i, m) in list.iter().enumerate() {
+            if self.used.borrow().contains(&(c, i)) {
+                continue;
+            }
+            if let Some(v) = f(m) {
+                self.used.borrow_mut().insert((c, i));
+                return Some(v);
+            }
+        }
+        None
+    }
+
+    pub fn any(&self, c: C, mut f: impl FnMut(&Message) -> bool) -> bool {
+        self.obs.get(&c).map(|l| l.iter().any(|m| f(m))).unwrap_or(false)
+    }
+}
 
 fn oid(uuid: Uuid, cookie: Uuid) -> ObjectId {
     ObjectId::new(ObjectUuid(uuid), ObjectCookie(cookie))
@@ -415,7 +450,7 @@ impl Model {
     // the step function
 
     /// Applies one message sent by connection `c`.
-    pub fn step(&mut self, c: C, msg: &Message, obs: &Observed) -> Effects {
+    pub fn step(&mut self, c: C, msg: &Message, obs: &ObsView) -> Effects {
         let mut eff = Effects::default();
         if !self.alive(c) {
             return eff;
@@ -433,7 +468,7 @@ impl Model {
                     eff.note("create-object:duplicate");
                 } else {
                     // pick up the cookie the broker chose
-                    let cookie = obs.get(&c).into_iter().flatten().find_map(|m| match m {
+                    let cookie = obs.take(c, |m| match m {
                         Message::CreateObjectReply(CreateObjectReply { serial, result: CreateObjectResult::Ok(k) }) if *serial == req.serial => Some(k.0),
                         _ => None,
                     });
@@ -730,7 +765,7 @@ impl Model {
             }
 
             Message::CreateChannel(req) => {
-                let cookie = obs.get(&c).into_iter().flatten().find_map(|m| match m {
+                let cookie = obs.take(c, |m| match m {
                     Message::CreateChannelReply(r) if r.serial == req.serial => Some(r.cookie.0),
                     _ => None,
                 });
@@ -791,14 +826,14 @@ impl Model {
                             match req.end {
                                 ChannelEndWithCapacity::Sender => {
                                     ch.sender = End::Claimed(c);
-                                    ch.announced = ch.granted;
+                                    ch.announced = ch.granted as i64;
                                     let cap = ch.granted as u32;
                                     eff.must(c, ClaimChannelEndReply { serial: req.serial, result: ClaimChannelEndResult::SenderClaimed(cap) });
                                 }
                                 ChannelEndWithCapacity::Receiver(cap) => {
                                     ch.receiver = End::Claimed(c);
                                     ch.granted = cap as u64;
-                                    ch.announced = cap as u64;
+                                    ch.announced = cap as i64;
                                     eff.must(c, ClaimChannelEndReply { serial: req.serial, result: ClaimChannelEndResult::ReceiverClaimed });
                                 }
                             }
@@ -825,7 +860,10 @@ impl Model {
                             }
                             End::Closed => eff.note("send:receiver-closed"),
                             End::Claimed(r) => {
-                                if ch.announced == 0 {
+                                // The broker announces new credit as soon as the sender runs low, so
+                                // (checked separately as "no credit deadlock") the sender is out of
+                                // announced credit exactly when the receiver's grant is used up.
+                                if ch.granted == 0 {
                                     // exceeded what was announced: only the sender's end is lost
                                     self.close_end(&mut eff, k, ChannelEnd::Sender);
                                     eff.note("send:exceeds-capacity");
@@ -833,7 +871,7 @@ impl Model {
                                     ch.announced -= 1;
                                     ch.granted -= 1;
                                     ch.items_forwarded += 1;
-                                    let room = ch.granted - ch.announced;
+                                    let room = (ch.granted as i64 - ch.announced).max(0) as u64;
                                     if self.alive(r) {
                                         eff.must(r, ItemReceived { cookie: req.cookie, value: req.value.clone() });
                                     }
@@ -863,7 +901,7 @@ impl Model {
                             } else {
                                 ch.granted += req.capacity as u64;
                                 if let End::Claimed(s) = ch.sender {
-                                    let room = ch.granted - ch.announced;
+                                    let room = (ch.granted as i64 - ch.announced).max(0) as u64;
                                     if room > 0 && self.alive(s) {
                                         eff.out.entry(s).or_default().push(Exp::Announce { cookie: k, max: room });
                                     }
@@ -878,7 +916,7 @@ impl Model {
             Message::Sync(req) => eff.must(c, SyncReply { serial: req.serial }),
 
             Message::CreateBusListener(req) => {
-                let cookie = obs.get(&c).into_iter().flatten().find_map(|m| match m {
+                let cookie = obs.take(c, |m| match m {
                     Message::CreateBusListenerReply(r) if r.serial == req.serial => Some(r.cookie.0),
                     _ => None,
                 });
@@ -1020,17 +1058,18 @@ impl Model {
         }
     }
 
-    fn create_service(&mut self, eff: &mut Effects, c: C, obs: &Observed, serial: u32, object_cookie: Uuid, su: Uuid, info: ServiceInfo) {
+    fn create_service(&mut self, eff: &mut Effects, c: C, obs: &ObsView, serial: u32, object_cookie: Uuid, su: Uuid, info: ServiceInfo) {
         if let Some(result) = self.create_service_precheck(c, object_cookie, su) {
             // duplicate *and* foreign: the property does not rank the two answers
             let both = matches!(result, CreateServiceResult::DuplicateService)
                 && self.find_obj_by_cookie(object_cookie).map(|ou| self.objs[&ou].owner != c).unwrap_or(false);
             if both {
-                let seen_foreign = obs.get(&c).into_iter().flatten().any(|m| matches!(m, Message::CreateServiceReply(r) if r.serial == serial && r.result == CreateServiceResult::ForeignObject));
-                if seen_foreign {
-                    eff.must(c, CreateServiceReply { serial, result: CreateServiceResult::ForeignObject });
-                    return;
-                }
+                eff.out.entry(c).or_default().push(Exp::Either(
+                    CreateServiceReply { serial, result: CreateServiceResult::DuplicateService }.into(),
+                    CreateServiceReply { serial, result: CreateServiceResult::ForeignObject }.into(),
+                ));
+                eff.note("foreign-access");
+                return;
             }
             if matches!(result, CreateServiceResult::ForeignObject) {
                 eff.note("foreign-access");
@@ -1038,7 +1077,7 @@ impl Model {
             eff.must(c, CreateServiceReply { serial, result });
             return;
         }
-        let cookie = obs.get(&c).into_iter().flatten().find_map(|m| match m {
+        let cookie = obs.take(c, |m| match m {
             Message::CreateServiceReply(CreateServiceReply { serial: s, result: CreateServiceResult::Ok(k) }) if *s == serial => Some(k.0),
             _ => None,
         });
@@ -1066,7 +1105,7 @@ impl Model {
     }
 
     #[allow(clippy::too_many_arguments)]
-    fn call(&mut self, eff: &mut Effects, c: C, obs: &Observed, serial: u32, svc_cookie: Uuid, function: u32, version: Option<u32>, value: &SerializedValue) {
+    fn call(&mut self, eff: &mut Effects, c: C, obs: &ObsView, serial: u32, svc_cookie: Uuid, function: u32, version: Option<u32>, value: &SerializedValue) {
         let Some((o, _, _, _)) = self.svc(svc_cookie) else {
             eff.must(c, CallFunctionReply { serial, result: CallFunctionResult::InvalidService });
             eff.note("call:invalid-service");
@@ -1082,9 +1121,10 @@ impl Model {
         // the callee-side serial is the broker's choice: take it from the observed forward
         let used: BTreeSet<u32> = self.calls.iter().map(|k| k.callee_serial).collect();
         let callee_v = self.minor(callee);
-        let found = obs.get(&callee).into_iter().flatten().find_map(|m| match m {
-            Message::CallFunction(f) if callee_v < 19 && f.service_cookie.0 == svc_cookie && f.function == function && !used.contains(&f.serial) => Some(f.serial),
-            Message::CallFunction2(f) if callee_v >= 19 && f.service_cookie.0 == svc_cookie && f.function == function && f.version == version && !used.contains(&f.serial) => Some(f.serial),
+        let want_value = crate::engine::payload_key(value);
+        let found = obs.take(callee, |m| match m {
+            Message::CallFunction(f) if callee_v < 19 && f.service_cookie.0 == svc_cookie && f.function == function && !used.contains(&f.serial) && crate::engine::payload_key(&f.value) == want_value => Some(f.serial),
+            Message::CallFunction2(f) if callee_v >= 19 && f.service_cookie.0 == svc_cookie && f.function == function && f.version == version && !used.contains(&f.serial) && crate::engine::payload_key(&f.value) == want_value => Some(f.serial),
             _ => None,
         });
         let found = match found {
